@@ -53,20 +53,314 @@ def _paren_optchain(src):
 
 
 # ---------------------------------------------------------------------------------------------------
+# spec side: JsLaws / JsGen model checking, rendering of generated programs, C01Ast trace validation
+_LEAF = {"''": '""', "'s'": '"s"'}
+_BIN = {'&&', '||', '??', '==', '!=', '===', '!==', '+', '-', '<'}
+
+
+def _paren(txt, leaf):
+    return txt if leaf else '(' + txt + ')'
+
+
+def render(sym):
+    """prefix production sequence (spec/JsGen.tla) -> JavaScript text; every compound operand is parenthesised"""
+    pos = [0]
+
+    def nxt():
+        t = sym[pos[0]]
+        pos[0] += 1
+        return t
+
+    def E():
+        t = nxt()
+        if t in ('a', 'b', 'x', 'y', 'p', 'undefined', 'null', 'true', 'false', '0', '1', 'NaN', 'typeof zz', 'a()', 'b()', 'a.b',
+                 'a?.b', 'a?.b.c', 'a?.b()', 'a?.()'):
+            return t, True
+        if t in _LEAF:
+            return _LEAF[t], True
+        if t in ('!', 'neg', 'typeof', 'void'):
+            a, l = E()
+            op = {'!': '!', 'neg': '-', 'typeof': 'typeof ', 'void': 'void '}[t]
+            return op + _paren(a, l), False
+        if t in _BIN:
+            a, la = E()
+            b, lb = E()
+            return _paren(a, la) + t + _paren(b, lb), False
+        if t == '?:':
+            a, la = E()
+            b, lb = E()
+            c, lc = E()
+            return _paren(a, la) + '?' + _paren(b, lb) + ':' + _paren(c, lc), False
+        if t == ',':
+            a, la = E()
+            b, lb = E()
+            return '(' + _paren(a, la) + ',' + _paren(b, lb) + ')', True
+        if t in ('x=', 'y=', 'p=', 'a.b='):
+            a, l = E()
+            return t + _paren(a, l), False
+        if t in ('a(_)', 'out(_)', 'f(_)'):
+            a, l = E()
+            return t[:-3] + '(' + a + ')', True
+        if t == '_.b':
+            a, l = E()
+            return _paren(a, l) + '.b', True
+        if t == '_?.b':
+            a, l = E()
+            return _paren(a, l) + '?.b', True
+        if t == '==null':
+            a, l = E()
+            return _paren(a, l) + '==null', False
+        if t == '===undefined':
+            a, l = E()
+            return _paren(a, l) + '===undefined', False
+        raise ValueError('unknown expression production ' + t)
+
+    def S():
+        t = nxt()
+        if t == 'expr;':
+            return E()[0] + ';'
+        if t == 'if':
+            c = E()[0]
+            return 'if(' + c + '){' + S() + '}'
+        if t == 'ifelse':
+            c = E()[0]
+            a = S()
+            b = S()
+            return 'if(' + c + '){' + a + '}else{' + b + '}'
+        if t == 'var x=':
+            return 'var x=' + E()[0] + ';'
+        if t == 'var x':
+            return 'var x;'
+        if t == 'let y=':
+            return 'let y=' + E()[0] + ';'
+        if t == 'block':
+            return '{' + L() + '}'
+        if t == 'throw':
+            return 'throw ' + E()[0] + ';'
+        if t == 'try':
+            a = S()
+            b = S()
+            return 'try{' + a + '}catch(e){' + b + '}'
+        if t == 'for2':
+            return 'for(var i=0;i<2;i=i+1){' + S() + '}'
+        if t == 'while2':
+            return '{w=0;while(w<2){w=w+1;' + S() + '}}'
+        if t == 'empty;':
+            return ';'
+        if t == 'break?':
+            return 'for(var j=0;j<2;j=j+1){if(a)break;out(j)}'
+        if t == 'return':
+            return 'return ' + E()[0] + ';'
+        if t == 'return;':
+            return 'return;'
+        raise ValueError('unknown statement production ' + t)
+
+    def L():
+        t = nxt()
+        if t == 'one':
+            return S()
+        if t == 'cons':
+            a = S()
+            return a + '\n' + L()
+        raise ValueError('unknown list production ' + t)
+
+    t = nxt()
+    if t == 'prog':
+        src = L()
+    elif t == 'progf':
+        body = L()
+        src = 'function f(p){' + body + '}\n' + L()
+    else:
+        raise ValueError('not a program: ' + t)
+    if pos[0] != len(sym):
+        raise ValueError('trailing productions')
+    return src
+
+
+def _programs_from_tlc(out):
+    progs = []
+    for line in out.splitlines():
+        line = line.strip()
+        if line.startswith('"[\\"PROG\\"'):
+            arr = json.loads(json.loads(line))
+            progs.append(arr[1:])
+    return progs
+
+
 def model_check(ctx):
-    return {}
+    """(MC) design level: rewrite laws for all operand instantiations and environments (JsLaws), generator automaton with
+    its invariants (JsGen); the complete programs TLC prints are the generated inputs."""
+    quick = ctx.quick()
+    info = {'evidence': {}}
+    r = vlib.tlc_mc(ctx, 'JsLaws', 'JsLaws_quick.cfg' if quick else 'JsLaws_thorough.cfg', workers=min(8, vlib.JOBS), heap='3g',
+                    timeout=3000)
+    if 'LAW FAILS' in r['out']:
+        raise vlib.Infra('a rewrite law fails in the design model:\n' + '\n'.join(l for l in r['out'].splitlines() if 'LAW FAILS' in l)[:2000])
+    info['evidence']['laws_instantiations_checked'] = r['distinct']
+    progs = []
+    for cfg in (['JsGen_flow_quick.cfg', 'JsGen_expr_quick.cfg'] if quick else ['JsGen_flow.cfg', 'JsGen_expr.cfg', 'JsGen_nullish.cfg']):
+        r = vlib.tlc_mc(ctx, 'JsGen', cfg, workers=min(8, vlib.JOBS), heap='4g', timeout=3000)
+        ps = _programs_from_tlc(r['out'])
+        info['evidence'][cfg] = dict(states=r['distinct'], programs=len(ps))
+        progs += ps
+    # random walks far beyond the exhaustive bounds (TLC -simulate on the same automaton, all productions enabled)
+    nsim = 1500 if quick else 40000
+    rs = vlib.tlc(ctx, 'JsGen', 'JsGen_sim.cfg', workers=1, simulate='num=%d' % nsim, depth=60, seed=ctx.seed, timeout=1200)
+    if rs['errors'] and not any('PROG' in l for l in rs['out'].splitlines()):
+        raise vlib.Infra('JsGen simulate failed: ' + rs['out'][-1500:])
+    sims = _programs_from_tlc(rs['out'])
+    info['evidence']['simulated_programs'] = len(sims)
+    info['exhaustive'] = progs
+    info['simulated'] = sims
+    return info
 
 
 def fragment_programs(ctx, specinfo):
-    return []
+    quick = ctx.quick()
+    seen = set()
+    out = []
+    ex = specinfo.get('exhaustive', [])
+    if quick:
+        ex = vlib.sample(ex, 1200, ctx.rnd)
+    for sym in ex + specinfo.get('simulated', []):
+        try:
+            src = render(sym)
+        except (ValueError, IndexError):
+            continue
+        if src not in seen:
+            seen.add(src)
+            out.append(src)
+    return out
+
+
+def _tlc_ast(ctx, lines, tag):
+    """C01Ast over recorded AST lines, sharded over JVMs.  Returns (stats, rejects[(index, why)])"""
+    n = len(lines)
+    if n == 0:
+        return dict(ok=0, bad=0, skip_in=0, skip_out=0), []
+    from concurrent.futures import ThreadPoolExecutor
+    shards = max(1, min(vlib.JOBS, n // 25 + 1))
+    files, index = [], []
+    for sh in range(shards):
+        idx = list(range(sh, n, shards))
+        p = ctx.path('tv', 'C01Ast-%s-%d.ndjson' % (tag, sh))
+        vlib.write_ndjson(p, [lines[i] for i in idx])
+        files.append(p)
+        index.append(idx)
+    vlib._speccopy(ctx)
+
+    def one(sh):
+        return vlib.tlc(ctx, 'C01Ast', 'C01Ast.cfg', workers=1, heap='2g', timeout=3000, env={'TRACE': files[sh]})
+
+    with ThreadPoolExecutor(max_workers=shards) as exr:
+        results = list(exr.map(one, range(shards)))
+    stats = dict(ok=0, bad=0, skip_in=0, skip_out=0)
+    rejects = []
+    for sh, r in enumerate(results):
+        bad = [e for e in r['errors'] if 'REJECT' not in e]
+        if r['invariant_violations'] or bad or not r['completed'] or r['distinct'] != len(index[sh]) + 1:
+            raise vlib.Infra('C01Ast run failed (shard %d):\n%s' % (sh, r['out'][-3000:]))
+        for m in re.finditer(r'<<"STAT", (\d+), (\d+), (\d+), (\d+), (\d+)>>', r['out']):
+            stats['ok'] += int(m.group(2))
+            stats['bad'] += int(m.group(3))
+            stats['skip_in'] += int(m.group(4))
+            stats['skip_out'] += int(m.group(5))
+        wit = dict((int(m.group(1)), m.group(2)) for m in re.finditer(r'<<"WITNESS", (\d+), (<<[^>]*>>)>>', r['out']))
+        for (l, why) in r['rejects']:
+            rejects.append((index[sh][l - 1], why, wit.get(l, '')))
+    return stats, sorted(set(rejects))
 
 
 def run_fragment(ctx, exe, frag, run_sources, stats):
-    return dict(evaluations=0, rejected=0, nontrivial=set(), samples=[], violations=[], spec_accepted=0)
+    """spec recorder + engine recorder over the TLC-generated fragment programs"""
+    res = dict(evaluations=0, rejected=0, nontrivial=set(), samples=[], violations=[], spec_accepted=0)
+    srcs = [s for s in frag if not excluded(s)]
+    stats['excluded_known_construct'] = stats.get('excluded_known_construct', 0) + (len(frag) - len(srcs))
+    if not srcs:
+        return res
+    fst = {}
+    pairs, lines, rej, astlines = run_sources(ctx, exe, srcs, 'fragment', nenv=3, probe=1, ast=True, stats=fst)
+    for k, v in fst.items():
+        stats[k] = stats.get(k, 0) + v
+    res['evaluations'] += len(lines)
+    observed = set(l['id'] for l in lines)
+    for p in pairs:
+        if p['id'] in observed and p['out'] != p['in']:
+            res['nontrivial'].add((p['in'], p['out']))
+    for p in pairs[:: max(1, len(pairs) // 3)][:3]:
+        res['samples'].append({'family': 'fragment', 'in': p['in'][:200], 'out': p['out'][:200], 'cfgs': p['cfgs'][:3]})
+    byid = dict((p['id'], p) for p in pairs)
+    L = dict(((l['id'], l['env']), l) for l in lines)
+    seenv = set()
+    for pid, env, why in rej:
+        if pid in seenv:
+            continue
+        seenv.add(pid)
+        p = byid[pid]
+        res['violations'].append((p['in'], p['cfgs'][0], 'engine: ' + why, first_difference_text(L[(pid, env)]), p['out']))
+    # ---- spec recorder
+    inlines = [a for a in astlines if a.get('frag')]
+    stats['fragment_pairs_outside_the_tla_fragment'] = stats.get('fragment_pairs_outside_the_tla_fragment', 0) + \
+        sum(1 for a in astlines if not a.get('frag'))
+    tl = [dict(id=a['id'], free=a['free'], vary=a['vary'], inp=a['inp'], outp=a['outp'], v8=a['v8']) for a in inlines]
+    st, rejects = _tlc_ast(ctx, tl, 'main')
+    stats['spec_env_runs_ok'] = stats.get('spec_env_runs_ok', 0) + st['ok']
+    stats['spec_env_runs_outside_model_input'] = stats.get('spec_env_runs_outside_model_input', 0) + st['skip_in']
+    stats['spec_env_runs_outside_model_output'] = stats.get('spec_env_runs_outside_model_output', 0) + st['skip_out']
+    stats['spec_v8_crosschecks'] = stats.get('spec_v8_crosschecks', 0) + sum(len(a['v8']) for a in inlines)
+    res['evaluations'] += st['ok'] + st['bad']
+    bugs = [(i, w) for i, w, _ in rejects if w == 'SPECBUG']
+    if bugs:
+        a = inlines[bugs[0][0]]
+        raise vlib.Infra('TLA+ semantics (JsCore.Run) disagrees with V8 on fragment program(s), e.g. %r -> %r  (%d lines): specification '
+                         'bug, not a verdict' % (byid[a['id']]['in'], byid[a['id']]['out'], len(bugs)))
+    badlines = set()
+    for i, w, wit in rejects:
+        a = inlines[i]
+        badlines.add(i)
+        if a['id'] in seenv:
+            continue
+        seenv.add(a['id'])
+        p = byid[a['id']]
+        res['violations'].append((p['in'], p['cfgs'][0], 'TLA+ semantics: ' + w, 'environment %s over %s' % (wit, a['vary']), p['out']))
+    res['spec_accepted'] = len(inlines) - len(badlines)
+    res['rejected'] = len(seenv)
+    stats['fragment'] = dict(programs=len(srcs), pairs=len(pairs), engine_observations=len(lines), ast_lines=len(inlines),
+                             rejected_pairs=len(seenv))
+    vlib.log('fragment: programs=%d pairs=%d engine obs=%d ast lines=%d (spec env runs ok=%d skipped=%d/%d) rejected=%d' % (
+        len(srcs), len(pairs), len(lines), len(inlines), st['ok'], st['skip_in'], st['skip_out'], len(seenv)))
+    return res
+
+
+def first_difference_text(line):
+    a, b = line['a'], line['b']
+    if a['comp'] != b['comp']:
+        return 'completion %s vs %s' % (a['comp'], b['comp'])
+    for i, (x, y) in enumerate(zip(a['calls'], b['calls'])):
+        if x != y:
+            return 'host call #%d %s vs %s' % (i + 1, x, y)
+    if len(a['calls']) != len(b['calls']):
+        return 'host call count %d vs %d' % (len(a['calls']), len(b['calls']))
+    return 'final globals'
 
 
 def confirm_fragment_alone(ctx, exe, src, cfg, run_sources):
-    return None
+    """re-run ONE program with ONE configuration through the spec recorder (fresh processes)"""
+    pairs, lines, rej, astlines = run_sources(ctx, exe, [src], 'frag-alone-%d' % confirm_fragment_alone.n, nenv=1, probe=0, ast=True,
+                                             cfgs=[cfg], stats={})
+    confirm_fragment_alone.n += 1
+    inlines = [a for a in astlines if a.get('frag')]
+    if not inlines:
+        return None
+    tl = [dict(id=a['id'], free=a['free'], vary=a['vary'], inp=a['inp'], outp=a['outp'], v8=a['v8']) for a in inlines]
+    st, rejects = _tlc_ast(ctx, tl, 'alone-%d' % confirm_fragment_alone.n)
+    rejects = [r for r in rejects if r[1] != 'SPECBUG']
+    if not rejects:
+        return None
+    return 'Run(input) and Run(output) differ under environment %s over %s' % (rejects[0][2], inlines[rejects[0][0]]['vary'])
+
+
+confirm_fragment_alone.n = 0
 
 
 # ---------------------------------------------------------------------------------------------------
